@@ -254,3 +254,12 @@ Fixpoint json_eqb (a b : json) : bool :=
   | _, _ => false
   end.
 
+
+(* the JSON file format of the dumpers: '[' + ','.join(json.dumps(row)) + ']' (no space after the commas) *)
+Fixpoint print_rows (l : list json) : str :=
+  match l with
+  | [] => []
+  | [x] => jprint x
+  | x :: r => jprint x ++ 44 :: print_rows r
+  end.
+Definition json_file (rows : list json) : str := 91 :: print_rows rows ++ [93].
